@@ -1059,7 +1059,7 @@ def tree_cases(tier, rng):
     for i in range(n):
         yield defect_case(rng, [])
     for k in DEFECTS:
-        for i in range({"quick": 8, "thorough": 60}[tier]):
+        for i in range({"quick": 6, "thorough": 60}[tier]):
             yield defect_case(rng, [k])
     for i in range({"quick": 150, "thorough": 1500}[tier]):
         yield defect_case(rng, [rng.choice(DEFECTS) for _ in range(rng.randint(2, 5))])
